@@ -73,7 +73,9 @@ def runTrace (cfgF : Fields) (ops : List (Nat × Fields)) : String :=
         if false then go rest (n + 1)
         else
           let im := (parseFw f).foldl (applyRedesc tomb) base
-          let model := showReads (readsOf tomb nblocks nkeys im)
+          -- version 2^64-2 marks an entry whose header passes every check but names another compression
+          -- codec: the load fails to decompress and reports an error
+          let model := (showReads (readsOf tomb nblocks nkeys im)).replace ":18446744073709551614" ":err"
           let impl := getD f "reads" "-"
           if getD f "open" "ok" ≠ "ok" then s!"REJECT line={ln} step={n} field=open model=ok impl={getD f "open" ""}"
           else if model ≠ impl then s!"REJECT line={ln} step={n} field=reads model={model} impl={impl}"
